@@ -81,7 +81,7 @@ Proof. intros W D; unfold refines; cbn [step gstep]. guard_eq. destruct (negb (h
   assert (K: sk s' = sk s) by (apply sk_upd_sub; reflexivity).
   assert (R: rest s' = rest s) by (apply rest_upd_sub; reflexivity).
   assert (ST: forall i, s_ver (get_sub i s') = s_ver (get_sub i s) /\ s_stage (get_sub i s) <= s_stage (get_sub i s')).
-  { intros i. unfold s'. rewrite get_sub_upd_sub. dest_if; simpl; auto. b2p. subst. lia. }
+  { intros i. unfold s'. rewrite get_sub_upd_sub. dest_if; simpl; auto. b2p. subst. split; auto; lia. }
   rsplit; auto.
   - apply abs_upd_sub. reflexivity.
   - apply (WF_sk s s'); auto.
@@ -89,3 +89,193 @@ Proof. intros W D; unfold refines; cbn [step gstep]. guard_eq. destruct (negb (h
     + intros i j Hj. destruct (ST i) as [-> _]. apply (dy_pos s D); auto.
     + intros k. destruct (ST (fst k)) as [-> _]. rewrite (rest_get_ce _ _ k R). apply (dy_le s D).
     + intros k. destruct (ST (fst k)) as [-> LE]. rewrite (rest_get_ce _ _ k R). intros A B. pose proof (dy_fresh s D k A B). lia. Qed.
+
+(* ================================================================= notifications *)
+Fact clear_step s l r : WF s -> Dyn s -> (forall d, In d l <-> direct (abs s) r d = true) ->
+  abs (notify l s) = g_clear r (abs s) /\ WF (notify l s) /\ Dyn (notify l s).
+Proof. intros W D H. split; [|split].
+  - apply notify_abs; auto.
+  - apply (WF_sk s); auto. symmetry; apply sk_notify.
+  - apply (Dyn_clear s); auto using sk_notify, shape_notify.
+    intros E. rewrite notify_flags. destruct (existsb _ l); auto. Qed.
+
+Fact direct_RCE s k d : direct (abs s) (RCE k) d = key_eqb k d. Proof. reflexivity. Qed.
+Fact direct_RQ s d : direct (abs s) RQ d = c_q (get_ce d s). Proof. unfold direct. rewrite gget_ce_abs. reflexivity. Qed.
+Fact direct_RU s d : direct (abs s) RU d = c_u (get_ce d s). Proof. unfold direct. rewrite gget_ce_abs. reflexivity. Qed.
+Fact direct_RZ s d : direct (abs s) RZ d = c_z (get_ce d s). Proof. unfold direct. rewrite gget_ce_abs. reflexivity. Qed.
+Fact direct_RDV s dk d : direct (abs s) (RDV dk) d = mem_key dk (c_dvs (get_ce d s)). Proof. unfold direct. rewrite gget_ce_abs. reflexivity. Qed.
+
+Fact clear_ce s k : WF s -> Dyn s ->
+  abs (inval_ce (fuel s) k s) = g_clear (RCE k) (abs s) /\ WF (inval_ce (fuel s) k s) /\ Dyn (inval_ce (fuel s) k s).
+Proof. intros W D. change (inval_ce (fuel s) k s) with (notify [k] s). apply clear_step; auto.
+  intros d. rewrite direct_RCE, key_eqb_eq. simpl. split; [intros [->|[]]; auto | intros ->; auto]. Qed.
+Fact clear_q s : WF s -> Dyn s -> abs (notify (qd s) s) = g_clear RQ (abs s) /\ WF (notify (qd s) s) /\ Dyn (notify (qd s) s).
+Proof. intros W D. apply clear_step; auto. intros d. rewrite direct_RQ. apply (wf_q s W). Qed.
+Fact clear_u s : WF s -> Dyn s -> abs (notify (ud s) s) = g_clear RU (abs s) /\ WF (notify (ud s) s) /\ Dyn (notify (ud s) s).
+Proof. intros W D. apply clear_step; auto. intros d. rewrite direct_RU. apply (wf_u s W). Qed.
+Fact clear_z s : WF s -> Dyn s -> abs (notify (zd s) s) = g_clear RZ (abs s) /\ WF (notify (zd s) s) /\ Dyn (notify (zd s) s).
+Proof. intros W D. apply clear_step; auto. intros d. rewrite direct_RZ. apply (wf_z s W). Qed.
+Fact clear_dv s dk : WF s -> Dyn s ->
+  abs (notify (d_deps (get_dv dk s)) s) = g_clear (RDV dk) (abs s) /\ WF (notify (d_deps (get_dv dk s)) s) /\ Dyn (notify (d_deps (get_dv dk s)) s).
+Proof. intros W D. apply clear_step; auto. intros d. rewrite direct_RDV, mem_key_In. apply (wf_dv s W). Qed.
+
+(* value-version bumps and size fields are invisible to the abstraction and the invariants *)
+Fact inv_ext s s' : subs s' = subs s -> qd s' = qd s -> ud s' = ud s -> zd s' = zd s -> WF s -> Dyn s -> abs s' = mkG (sys_stage s') (g_subs (abs s)) /\ WF s' /\ Dyn s'.
+Proof. intros E1 E2 E3 E4 W D.
+  assert (G: forall i, get_sub i s' = get_sub i s) by (intros; unfold get_sub; rewrite E1; auto).
+  assert (C: forall k, get_ce k s' = get_ce k s) by (intros; unfold get_ce; rewrite G; auto).
+  assert (V: forall k, get_dv k s' = get_dv k s) by (intros; unfold get_dv; rewrite G; auto).
+  split; [|split].
+  - unfold abs. rewrite E1. reflexivity.
+  - destruct W. constructor; intros; rewrite ?E2, ?E3, ?E4, ?C, ?V, ?G; auto.
+  - destruct D. constructor; intros *; rewrite ?C, ?G; auto. Qed.
+
+Fact noteQ_step s : WF s -> Dyn s -> abs (noteQ s) = g_clear RQ (abs s) /\ WF (noteQ s) /\ Dyn (noteQ s).
+Proof. intros W D. unfold noteQ. destruct (inv_ext s (set_qv s (S (qv s)))) as (A & W1 & D1); auto. apply (clear_q _ W1 D1). Qed.
+Fact noteU_step s : WF s -> Dyn s -> abs (noteU s) = g_clear RU (abs s) /\ WF (noteU s) /\ Dyn (noteU s).
+Proof. intros W D. unfold noteU. destruct (inv_ext s (set_uv s (S (uv s)))) as (A & W1 & D1); auto. apply (clear_u _ W1 D1). Qed.
+Fact noteZ_step s : WF s -> Dyn s -> abs (noteZ s) = g_clear RZ (abs s) /\ WF (noteZ s) /\ Dyn (noteZ s).
+Proof. intros W D. unfold noteZ. destruct (inv_ext s (set_zv s (S (zv s)))) as (A & W1 & D1); auto. apply (clear_z _ W1 D1). Qed.
+Fact noteY_step s : WF s -> Dyn s -> abs (noteY s) = g_clear_roots [RQ;RU;RZ] (abs s) /\ WF (noteY s) /\ Dyn (noteY s).
+Proof. intros W D. unfold noteY, g_clear_roots; simpl.
+  destruct (noteQ_step s W D) as (A1 & W1 & D1). destruct (noteU_step _ W1 D1) as (A2 & W2 & D2). destruct (noteZ_step _ W2 D2) as (A3 & W3 & D3).
+  split; [|split]; auto. rewrite A3, A2, A1. reflexivity. Qed.
+
+Fact ref_Unmark cf s k : WF s -> Dyn s -> refines cf s (Unmark k).
+Proof. intros W D; unfold refines; cbn [step gstep]. guard_eq. destruct (negb (has_sub s (fst k) && has_ce s k)); red2; [rsplit; auto|].
+  destruct (clear_ce s k W D) as (A & B & C). rsplit; auto. Qed.
+
+Fact inval_step s g : WF s -> Dyn s -> 4 <= g -> abs (invalidateAll g s) = g_inval g (abs s) /\ WF (invalidateAll g s) /\ Dyn (invalidateAll g s).
+Proof. intros W D Hg. split; [|split].
+  - apply inval_abs; auto.
+  - apply (WF_sk s); auto. apply rest_sk. symmetry. apply invalidateAll_rest; auto.
+  - apply Dyn_invalidateAll; auto. Qed.
+
+Fact ref_InvalidateAll cf s g : WF s -> Dyn s -> runtime s (InvalidateAll g) = true -> refines cf s (InvalidateAll g).
+Proof. intros W D R; unfold refines; cbn [step gstep]. destruct (negb ((1 <=? g) && (g <=? 10))); red2; [rsplit; auto|].
+  cbn [runtime] in R. b2p. destruct (inval_step s g W D R) as (A & B & C). rsplit; auto. Qed.
+Fact ref_InvalidateCache cf s g : WF s -> Dyn s -> runtime s (InvalidateCache g) = true -> refines cf s (InvalidateCache g).
+Proof. intros W D R; unfold refines; cbn [step gstep]. destruct (negb ((1 <=? g) && (g <=? 10))); red2; [rsplit; auto|].
+  destruct (g <? 3) eqn:E; red2; [rsplit; auto|]. cbn [runtime] in R. rewrite E in R. cbn [orb] in R. b2p.
+  destruct (inval_step s g W D R) as (A & B & C). rsplit; auto. Qed.
+
+Fact w_stage_ge w : 4 <= w_stage w. Proof. destruct w; simpl; lia. Qed.
+Fact ref_Upd cf s w : WF s -> Dyn s -> refines cf s (Upd w).
+Proof. intros W D; unfold refines; cbn [step gstep]. red2.
+  destruct (inval_step s (w_stage w) W D (w_stage_ge w)) as (A & W1 & D1).
+  destruct w; cbn [g_clear_roots fold_left]; try (rsplit; auto; fail).
+  - destruct (noteQ_step _ W1 D1) as (A2 & W2 & D2). rsplit; auto. rewrite A2, A; reflexivity.
+  - destruct (noteU_step _ W1 D1) as (A2 & W2 & D2). rsplit; auto. rewrite A2, A; reflexivity.
+  - destruct (noteZ_step _ W1 D1) as (A2 & W2 & D2). rsplit; auto. rewrite A2, A; reflexivity.
+  - destruct (noteY_step _ W1 D1) as (A2 & W2 & D2). rsplit; auto. rewrite A2, A; reflexivity. Qed.
+
+Fact ref_SetDV cf s k v : WF s -> Dyn s -> runtime s (SetDV k v) = true -> refines cf s (SetDV k v).
+Proof. intros W D R; unfold refines; cbn [step gstep]. guard_eq. destruct (negb (has_sub s (fst k) && has_dv s k)); red2; [rsplit; auto|].
+  cbn [runtime] in R. b2p. rewrite gget_dv_abs. cbn [abs_dv gd_auto gd_inval].
+  destruct (inval_step s (d_inval (get_dv k s)) W D R) as (A1 & W1 & D1).
+  set (s1 := invalidateAll (d_inval (get_dv k s)) s) in *.
+  set (s2 := match d_auto (get_dv k s) with Some cx => inval_ce (fuel s1) (fst k, cx) s1 | None => s1 end).
+  assert (H2: abs s2 = g_clear_roots (match d_auto (get_dv k s) with Some cx => [RCE (fst k, cx)] | None => [] end) (abs s1) /\ WF s2 /\ Dyn s2).
+  { unfold s2. destruct (d_auto (get_dv k s)); simpl; auto. apply clear_ce; auto. }
+  destruct H2 as (A2 & W2 & D2).
+  set (s3 := upd_dv k (fun d' => d_set_val (d_set_valver d' (S (d_valver d'))) v) s2).
+  assert (K3: sk s3 = sk s2) by (apply sk_upd_dv; reflexivity).
+  destruct (keep s2 s3) as [W3 D3]; auto. { apply shape_upd_dv. } { intros; apply flags_upd_dv. }
+  assert (A3: abs s3 = abs s2) by (apply abs_upd_dv_id; reflexivity).
+  destruct (clear_dv s3 k W3 D3) as (A4 & W4 & D4).
+  rsplit; auto. rewrite A4, A3, A2, A1. unfold g_clear_roots. rewrite fold_left_app. reflexivity. Qed.
+
+Fact forallb_map {A B} (f:A->B) (p:B->bool) l : forallb p (map f l) = forallb (fun x => p (f x)) l.
+Proof. induction l; simpl; auto. rewrite IHl; auto. Qed.
+
+Fact ref_AdvSys cf s g : WF s -> Dyn s -> refines cf s (AdvSys g).
+Proof. intros W D; unfold refines; cbn [step gstep].
+  replace (forallb (fun b => g <=? gs_stage b) (g_subs (abs s))) with (forallb (fun b => g <=? s_stage b) (subs s))
+    by (unfold abs; simpl; rewrite forallb_map; reflexivity).
+  change (g_sys (abs s)) with (sys_stage s).
+  destruct (negb ((1 <=? g) && (g <=? 9) && (S (sys_stage s) =? g) && forallb (fun b => g <=? s_stage b) (subs s))); red2; [rsplit; auto|].
+  unfold adv_sys. destruct (g =? 2).
+  - set (s0 := set_nquz s _ _ _).
+    destruct (inv_ext s s0 eq_refl eq_refl eq_refl eq_refl W D) as (A0 & W0 & D0).
+    destruct (clear_q _ W0 D0) as (A1 & W1 & D1).
+    assert (Q1: ud s0 = ud (notify (qd s0) s0)) by (pose proof (sk_notify (qd s0) s0) as K; unfold sk in K; congruence).
+    rewrite Q1. destruct (clear_u _ W1 D1) as (A2 & W2 & D2).
+    assert (Q2: zd s0 = zd (notify (ud (notify (qd s0) s0)) (notify (qd s0) s0))).
+    { pose proof (sk_notify (qd s0) s0) as K1. pose proof (sk_notify (ud (notify (qd s0) s0)) (notify (qd s0) s0)) as K2. unfold sk in K1, K2. congruence. }
+    rewrite Q2. destruct (clear_z _ W2 D2) as (A3 & W3 & D3).
+    match goal with |- context [set_sys ?t g _] => destruct (inv_ext t (set_sys t g (sys_ver t)) eq_refl eq_refl eq_refl eq_refl W3 D3) as (A4 & W4 & D4) end.
+    rsplit; auto. rewrite A4, A3, A2, A1. reflexivity.
+  - destruct (inv_ext s (set_sys s g (sys_ver s)) eq_refl eq_refl eq_refl eq_refl W D) as (A4 & W4 & D4). rsplit; auto. Qed.
+
+(* ================================================================= autoUpdateDiscreteVariables *)
+Fact auto_one_step cf s dk : WF s -> Dyn s -> (fix_auto cf = true \/ auto_ok1 s dk = true) ->
+  abs (auto_one cf s dk) = g_auto_one (abs s) dk /\ WF (auto_one cf s dk) /\ Dyn (auto_one cf s dk).
+Proof. intros W D L. unfold auto_one, g_auto_one. rewrite gget_dv_abs. cbn [abs_dv gd_auto].
+  destruct (d_auto (get_dv dk s)) as [cx|] eqn:AU; [|auto].
+  rewrite gvalid_abs. destruct (isUpToDate s (fst dk, cx)) eqn:UP; [|auto].
+  set (ck := (fst dk, cx)).
+  set (s1 := upd_ce ck (fun c => c_set_val c (d_val (get_dv dk s))) (upd_dv dk (fun d => d_set_val d (c_val (get_ce ck s))) s)).
+  assert (K1: sk s1 = sk s). { unfold s1. rewrite sk_upd_ce by reflexivity. apply sk_upd_dv; reflexivity. }
+  destruct (keep s s1) as [W1 D1]; auto.
+  { unfold s1. rewrite shape_upd_ce. apply shape_upd_dv. }
+  { intros E. unfold s1. rewrite flags_upd_ce_val by auto. apply flags_upd_dv. }
+  assert (A1: abs s1 = abs s). { unfold s1. rewrite abs_upd_ce_id by reflexivity. apply abs_upd_dv_id; reflexivity. }
+  assert (DP: d_deps (get_dv dk s1) = d_deps (get_dv dk s)). { pose proof (sk_get_dv s1 s dk K1) as X. unfold sk_dv in X. congruence. }
+  assert (H2: let s2 := if fix_auto cf then notify (d_deps (get_dv dk s1)) (upd_dv dk (fun d => d_set_valver d (S (d_valver d))) s1) else s1 in
+              abs s2 = g_clear (RDV dk) (abs s) /\ WF s2 /\ Dyn s2).
+  { destruct (fix_auto cf) eqn:FX; cbv zeta.
+    - set (s1' := upd_dv dk (fun d => d_set_valver d (S (d_valver d))) s1).
+      assert (K: sk s1' = sk s1) by (apply sk_upd_dv; reflexivity).
+      destruct (keep s1 s1') as [W1' D1']; auto. { apply shape_upd_dv. } { intros; apply flags_upd_dv. }
+      assert (A: abs s1' = abs s1) by (apply abs_upd_dv_id; reflexivity).
+      replace (d_deps (get_dv dk s1)) with (d_deps (get_dv dk s1')).
+      2:{ pose proof (sk_get_dv s1' s1 dk K) as X. unfold sk_dv in X. congruence. }
+      destruct (clear_dv s1' dk W1' D1') as (B & W2 & D2). rewrite B, A, A1. auto.
+    - destruct L as [L|L]; [discriminate|]. unfold auto_ok1 in L. rewrite AU, UP in L. simpl in L.
+      destruct (clear_dv s1 dk W1 D1) as (B & W2 & D2). rewrite DP in B, W2, D2.
+      destruct (d_deps (get_dv dk s)); [|discriminate]. change (notify [] s1) with s1 in *. rewrite <- A1. auto. }
+  cbv zeta in H2. destruct H2 as (A2 & W2 & D2).
+  match goal with |- context [inval_ce (fuel ?t) ck ?t] => destruct (clear_ce t ck W2 D2) as (A3 & W3 & D3) end.
+  split; [|split]; auto. rewrite A3, A2. reflexivity. Qed.
+
+Fact auto_fold cf l s : WF s -> Dyn s -> (fix_auto cf = true \/ auto_legal cf s l = true) ->
+  abs (fold_left (auto_one cf) l s) = fold_left g_auto_one l (abs s) /\ WF (fold_left (auto_one cf) l s) /\ Dyn (fold_left (auto_one cf) l s).
+Proof. revert s. induction l as [|dk l IH]; intros s W D L; simpl; auto.
+  assert (L1: fix_auto cf = true \/ auto_ok1 s dk = true).
+  { destruct L as [L|L]; auto. simpl in L. b2p. auto. }
+  destruct (auto_one_step cf s dk W D L1) as (A & W1 & D1).
+  destruct (IH (auto_one cf s dk) W1 D1) as (A2 & W2 & D2).
+  { destruct L as [L|L]; auto. simpl in L. b2p. auto. }
+  rewrite A2, A. auto. Qed.
+
+Fact mapi_from_map {A B C} (f:nat->B->C) (g:A->B) n l : mapi_from f n (map g l) = mapi_from (fun i x => f i (g x)) n l.
+Proof. revert n; induction l; simpl; intros; auto. rewrite IHl; auto. Qed.
+Fact mapi_from_ext {A B} (f f':nat->A->B) n l : (forall i x, f i x = f' i x) -> mapi_from f n l = mapi_from f' n l.
+Proof. intros H. revert n; induction l; simpl; intros; auto. rewrite H, IHl; auto. Qed.
+Fact all_dv_keys_abs s : gall_dv_keys (abs s) = all_dv_keys s.
+Proof. unfold gall_dv_keys, all_dv_keys, abs; simpl. rewrite mapi_from_map. f_equal.
+  apply mapi_from_ext. intros i x. simpl. rewrite map_length. reflexivity. Qed.
+
+Fact ref_AutoUpdate cf s : WF s -> Dyn s -> legal cf s AutoUpdate = true -> refines cf s AutoUpdate.
+Proof. intros W D L; unfold refines; cbn [step gstep]. red2. rewrite all_dv_keys_abs.
+  destruct (auto_fold cf (all_dv_keys s) s W D) as (A & W1 & D1).
+  { simpl in L. apply orb_true_iff in L. auto. }
+  rsplit; auto. Qed.
+
+(** every run-time operation that is not a deviation event commutes with the abstraction and keeps the invariants *)
+Fact step_refines cf s o : WF s -> Dyn s -> runtime s o = true -> legal cf s o = true -> refines cf s o.
+Proof. intros W D R L. destruct o; try discriminate R.
+  - apply ref_AdvSub; auto.
+  - apply ref_AdvSys; auto.
+  - apply ref_InvalidateAll; auto.
+  - apply ref_InvalidateCache; auto.
+  - apply ref_Upd; auto.
+  - apply ref_SetDV; auto.
+  - apply ref_SetCE; auto.
+  - apply ref_Mark; auto.
+  - apply ref_Unmark; auto.
+  - apply ref_MarkDVUpd; auto.
+  - apply ref_SetDVUpd; auto.
+  - apply ref_AutoUpdate; auto.
+  - apply ref_GetCE; auto.
+  - apply ref_Query; auto. Qed.
